@@ -3,6 +3,7 @@
   machine, and its compositionality in the number of buffered bytes.
 -/
 import Bita.Proofs.ChunkStreamHasher
+import Bita.Proofs.ValidLemmas
 namespace Bita.Proofs.CS
 open Bita
 
@@ -153,7 +154,7 @@ theorem mach_scan (p : RHParams) (k : Nat) (g : Hasher) (hd : g.initDone = true)
           simp only [Nat.add_assoc, Nat.add_comm 1]
 
 
-/-- Parameter facts used (all follow from `FilterConfig.Valid`). -/
+/-- Parameter facts used (all follow from `FilterConfig.Sane`). -/
 structure POK (p : RHParams) : Prop where
   lim : p.limit = 0 ∨ p.limit < p.minSize
   mm : p.minSize ≤ p.maxSize
@@ -467,21 +468,21 @@ theorem next_some (c : Chunker) (rest : Bytes) (h : Nat) (c' : Chunker) (n : Nat
     simp only [Chunker.next]
     rw [next_eq_mach p hp g o rest h' (by omega) hl' hinv, h6 (h' - o) (by omega)]
 
-theorem POK_ofConfig (f : FilterConfig) (hv : f.Valid) : POK (RHParams.ofConfig f) := by
+theorem POK_ofConfig (f : FilterConfig) (hv : f.Sane) : POK (RHParams.ofConfig f) := by
   obtain ⟨h1, h2, h3, h4, h5⟩ := hv
   constructor
   · simp only [RHParams.ofConfig]; split <;> omega
   · exact h3
-  · simp only [RHParams.ofConfig]; omega
+  · exact h2
 
 theorem CInv_ofConfig (cfg : Config) (hv : cfg.Valid) : CInv (Chunker.ofConfig cfg) 0 := by
   cases cfg with
   | fixed n => exact hv
   | rollsum f =>
-    refine ⟨POK_ofConfig f hv, Nat.le_refl _, ?_⟩
+    refine ⟨POK_ofConfig f (FilterConfig.Sane_of_ValidRoll hv), Nat.le_refl _, ?_⟩
     simp [need]
   | buzhash f =>
-    refine ⟨POK_ofConfig f hv, Nat.le_refl _, ?_⟩
+    refine ⟨POK_ofConfig f (FilterConfig.Sane_of_Valid hv), Nat.le_refl _, ?_⟩
     obtain ⟨h1, h2, h3, h4, h5⟩ := hv
     simp [need, BuzHash.new, RHParams.ofConfig]
     omega
